@@ -666,7 +666,7 @@ func main() {
 	}
 
 	// --- small scope: every ordered pair / triple of message kinds, leader with 1 and 3 seats
-	nSmall := o.Count(300, 3000)
+	nSmall := o.Count(250, 3000)
 	combos := [][]string{}
 	for _, a := range kinds {
 		for _, b := range kinds {
@@ -693,7 +693,7 @@ func main() {
 	}
 
 	// --- random histories
-	nRand := o.Count(700, 8000)
+	nRand := o.Count(550, 8000)
 	for i := 0; i < nRand; i++ {
 		r := rng.Fork(fmt.Sprintf("rand%d", i))
 		nOps := r.Range(2, 8)
